@@ -34,9 +34,15 @@ RPairs == {[op |-> "rpair", pair |-> pr, dx |-> dx, dy |-> dy, st |-> st, dt |->
 GPairs == {[op |-> "rpair", pair |-> pr, dx |-> 0, dy |-> 0, st |-> st, dt |-> dt, zoom |-> "global"] :
              pr \in {"4326G>32633", "4326G>3035", "4326G>3577", "4326G>3575", "3857G>32633", "3857G>4326"},
              st \in {<<<<20, 20, 20>>, <<30, 30, 30, 30>>>>, <<<<10, 30, 20>>, <<60, 60>>>>}, dt \in {<<<<16, 16, 16>>, <<16, 16, 16>>>>, <<<<48>>, <<1, 40, 7>>>>}}
+\* geometry queries in a REALLY different CRS: ellipses in lon/lat (centre and half-axes in tenths of a degree) against grids in polar / conic projections,
+\* where the sides of the query's bounding box bend when projected.  Environment table: sample points inside the ellipse projected with fresh pyproj;
+\* a tile holding three or more of them, well inside, is intersected by the query beyond doubt.
+RQueries == {[op |-> "rquery", grid |-> gr, lon |-> lo, lat |-> la, a |-> a, b |-> b, tiling |-> tl] :
+               gr \in {"3575", "3035", "32633"}, lo \in {-100, 150, 300}, la \in {450, 550, 600}, a \in {30, 120, 250}, b \in {20, 60, 100},
+               tl \in {<<<<10, 10, 10, 10, 10, 10>>, <<10, 10, 10, 10, 10, 10>>>>, <<<<20, 40>>, <<5, 25, 30>>>>}}
 VARIABLE c
 Init == c \in {[k |-> "r", v |-> 0]} \cup {[k |-> "q", v |-> B] : B \in Bases} \cup {[k |-> "p", v |-> s] : s \in PScales}
-Next == "k" \in DOMAIN c /\ c' \in (IF c.k = "q" THEN QueryCases(c.v) ELSE IF c.k = "r" THEN RPairs \cup GPairs ELSE IF c.v = 960 THEN PairCases(c.v) \cup SameGridPairs ELSE PairCases(c.v)) /\ Emit(c')
+Next == "k" \in DOMAIN c /\ c' \in (IF c.k = "q" THEN QueryCases(c.v) ELSE IF c.k = "r" THEN UNION {RPairs, GPairs, RQueries} ELSE IF c.v = 960 THEN PairCases(c.v) \cup SameGridPairs ELSE PairCases(c.v)) /\ Emit(c')
 Spec == Init /\ [][Next]_c
 \* design level: the transcribed linear path lists every needed source tile
 ModelOK == ("op" \in DOMAIN c /\ c.op = "pair" /\ IsST(c.A)) => LinearComplete([c |-> c, sy |-> c.sy, sx |-> c.sx, dy |-> c.dy, dx |-> c.dx])
